@@ -54,7 +54,7 @@ def run_onestep(pid, tier, seed, cfgs_quick, cfgs_thorough, ops, extra_props=(),
         ck.bounds = {'universe': 'U5 (all 63 shapes) and U8 (250 seeded shapes)', 'file_bytes': '0..2 symbolic',
                      'written_bytes': '0..2 symbolic', 'steps': 1, 'configs': cfgs_thorough}
     ck.add(run_cases(prog, onestep.run_step_case, cases), 'one inductive step: every op x every path from every well-formed tree')
-    scases = step_cases(['mem'] if tier == 'quick' else cfgs_thorough[:2], 'USYM', ops, props_, tier, seed, dlens=[1], perm=perm)
+    scases = step_cases(cfgs_quick[:2] if tier == 'quick' else cfgs_thorough[:2], 'USYM', ops, props_, tier, seed, dlens=[1], perm=perm)
     ck.add(run_cases(prog, onestep.run_step_case, scases), 'same, symbolic-name mode: names are solver variables (lengths 1,3,2 over {a,b,.,_,U+00E9}), siblings distinct')
     if overlay_plan:
         from . import overlay
@@ -723,6 +723,13 @@ def c15(tier, seed):
     oops = [(op, v) for op in overlay.HIST_OPS + overlay.OBS_OPS for v in uo.vars]
     for cfg in cfgs[:(14 if tier == 'quick' else len(cfgs))]:
         tcases.append({'universe': 'UO3', 'config': 'ovl', 'state': cfg, 'ops': oops if tier != 'quick' else rng.sample(oops, 24), 'pendings': [0, 1]})
+    # names that end in the marker suffix next to their stems: no contract is involved in a differential, the two APIs must simply agree
+    uw = overlay.UOW()
+    wcfgs = overlay.layer_configs(uw, 2)
+    rng.shuffle(wcfgs)
+    wops = [(op, v) for op in ('remove_file', 'remove_dir_all', 'read_dir', 'write') for v in uw.vars]
+    for cfg in wcfgs[:(12 if tier == 'quick' else 150)]:
+        tcases.append({'universe': 'UOW', 'config': 'ovl', 'state': cfg, 'ops': wops, 'pendings': [0]})
     tr = [(op_, src, dst) for op_ in ('copy_file', 'move_file', 'copy_dir', 'move_dir') for src in ('a', 'ab', 'a_b') for dst in ('x', 'ab')
           if src != dst]
     for sh in shs[::3]:
